@@ -1,1 +1,61 @@
-From Verif Require Import Base Tie.
+(* C05 -- group-specific blocks: group indicators x effect columns.
+   Block structure is proved for every number of groups and effect columns; the choice of the
+   effect coding is the C03 analysis applied by Model.eval with one uniform flag (finding
+   KF-C05-1 lists the effect expressions for which that flag is not what C03 would choose). *)
+From Verif Require Import Base Coding Contrasts Frame Eval Design DesignStructure DesignCoding.
+From Verif Require Tie.
+Local Close Scope Qc_scope.
+Local Close Scope Q_scope.
+
+(* one-hot group row (x) effect row = the effect row in the slots of that group, zero elsewhere *)
+Theorem C05_onehot_kron :
+  forall n k (e : list cell),
+    k < n -> Forall (fun c => c <> None) e ->
+    row_kron (onehot n k) e =
+    (repeat (zcell 0) (k * List.length e) ++ e ++ repeat (zcell 0) ((n - k - 1) * List.length e))%list.
+Proof. exact onehot_kron. Qed.
+
+(* a group-specific term with one grouping factor: groups are the sorted levels; every row is
+   non-zero only in the slots of its own group and carries the effect values there *)
+Theorem C05_group_block :
+  forall nrows g spans dg c fd ref,
+    set_data_gterm nrows g spans = Ok dg ->
+    tg_factor g = [c] -> dg_factor dg = [fd] ->
+    tc_kind c = KCategoric -> comp_encoding c = Treatment ref -> NoDup (dc_levels fd) ->
+    exists num o d,
+      categoric_data (tc_value c) = Ok (num, o, d) /\
+      dg_groups dg = dc_levels fd /\
+      forall i x, nth_error d i = Some (Some x) ->
+        let erow := nth i (dt_rows (dg_expr dg)) [] in
+        let n := List.length (dc_levels fd) in
+        (forall k, index_of x (dc_levels fd) = Some k ->
+                   nth i (dg_rows dg) [] =
+                   List.concat (map (fun j => if (j =? k)%nat then erow else map nanzero erow) (seq 0 n))) /\
+        (forall k, index_of x (dc_levels fd) = Some k -> Forall (fun c0 => c0 <> None) erow ->
+                   nth i (dg_rows dg) [] =
+                   (repeat (zcell 0) (k * List.length erow) ++ erow ++
+                    repeat (zcell 0) ((n - k - 1) * List.length erow))%list) /\
+        (index_of x (dc_levels fd) = None ->
+         nth i (dg_rows dg) [] = List.concat (map (fun _ => map nanzero erow) (seq 0 n))).
+Proof. exact set_data_gterm_block. Qed.
+
+(* any grouping expression (g1:g2:...): labels "effect|group" and entries stay aligned, the group
+   varies slowest, the effect fastest *)
+Theorem C05_group_labels :
+  forall nrows g spans dg,
+    set_data_gterm nrows g spans = Ok dg ->
+    exists levels,
+      (if String.eqb (dt_kind (dg_expr dg)) "intercept" then Ok ["1"%string]
+       else match dt_labels (dg_expr dg) with Some l => Ok l | None => Err EType end) = Ok levels /\
+      forall i,
+        let flabs := label_product (map dc_labs (dg_factor dg)) ":" in
+        let frow := nth i (factor_rows (dg_factor dg)) [] in
+        let erow := nth i (dt_rows (dg_expr dg)) [] in
+        List.length flabs = List.length frow -> List.length levels = List.length erow ->
+        combine (dg_labels dg) (nth i (dg_rows dg) []) = gprod (combine flabs frow) (combine levels erow) /\
+        List.length (dg_labels dg) = List.length (nth i (dg_rows dg) []).
+Proof. exact set_data_gterm_lrow. Qed.
+
+Print Assumptions C05_onehot_kron.
+Print Assumptions C05_group_block.
+Print Assumptions C05_group_labels.
